@@ -143,13 +143,9 @@ impl<W: Write> ProtocolWriter<W> for DefaultProtocolWriter<W> {
                 self.write_type_and_value(FSM_PROTOCOL_TYPE_STRING_LENGTH_12BIT, len as u64, 12);
                 len &= 0x0FFFusize;
             }
-            let r = self.writer.write(value[0..len].as_bytes());
-            match r {
-                Ok(_) => {}
-                Err(error) => {
-                    self.eval_result(Err(error));
-                }
-            }
+            // "write" may accept only a part of the data, "write_all" retries until all is written.
+            let r = self.writer.write_all(value[0..len].as_bytes());
+            self.eval_result(r);
         }
     }
 
